@@ -919,5 +919,40 @@ def deprecated_tag_blocks():
     return out
 
 
+def odd_tag_blocks():
+    """Ordinary blocks whose tag line is spelled unusually: two-word tag names with one blank / two blanks / a
+    tab / a no-break space between the words, upper / lower / mixed case, and letters that only match the tag
+    pattern through Unicode case folding (U+017F long s, U+0131 dotless i, U+212A Kelvin sign); each with text
+    after the colon and with nothing after it; where tags go (after the description) and directly after the
+    identifier; optionally followed by a text line.  What tag name / value such a line yields is UNSPECIFIED.
+    -> [(text, {'tag_line': i, 'offending': [i], 'params': [...], 'tags': None, 'plain': bool})]"""
+    names = []
+    for two in ('Return value', 'Returns value', 'Rename to', 'Get value func', 'Set value func', 'Ref func',
+                'Unref func'):
+        for sep in (' ', '  ', '\t', '\u00a0', ' \t'):
+            names.append((two.replace(' ', sep), sep == ' '))
+    for one in ('Since', 'Returns', 'Deprecated', 'Stability', 'Description', 'Return', 'Type', 'Value'):
+        for v in (one.upper(), one.lower(), one[0].lower() + ''.join(
+                c.upper() if i % 2 == 0 else c for i, c in enumerate(one[1:]))):
+            names.append((v, True))
+    for odd in ('\u017fince', 'Stab\u0131l\u0131ty', '\u017ftability', 'Return\u017f', 'Tran\u017ffer',
+                'V\u0131rtual', 'S\u0131nce', 'Deprecated\u00a0', 'Return\u017f value', 'Rename\tTo',
+                'Unref\u00a0Func', 'Attr\u0131butes', 'De\u017fcription', 'Stab\u0130lity'):
+        names.append((odd, False))
+    out = []
+    for name, plain in names:
+        for value in ('2.0 some text', '(skip) text', ''):
+            for place in ('tags', 'ident'):
+                for follow in ([], [' * more text']):
+                    head = ['/**', ' * foo_bar:']
+                    if place == 'tags':
+                        head += [' * @p: a value', ' *', ' * Does things.', ' *']
+                    lines = head + [' * %s:%s' % (name, (' ' + value) if value else '')] + follow + [' */']
+                    out.append(('\n'.join(lines), {'tag_line': len(head), 'offending': [len(head)],
+                                                   'params': ['p'] if place == 'tags' else [], 'tags': None,
+                                                   'plain': plain}))
+    return out
+
+
 def split_lines(text):
     return _LINE_SPLIT.split(text)
